@@ -6,6 +6,8 @@ pub mod vstdx {
 #[allow(unused_imports)] use core::ops::Deref;
 #[allow(unused_imports)] use std::collections::{BTreeMap, BTreeSet};
 #[allow(unused_imports)] use vstd::std_specs::iter::IteratorSpec;
+#[allow(unused_imports)] use vstd::std_specs::cmp::*;
+#[allow(unused_imports)] use vstd::std_specs::btree::*;
 verus! {
 
 // ---- Cow: `Deref` has no specification in vstd -------------------------------------------------
@@ -63,6 +65,17 @@ pub fn map_cloned_collect_set<'a, I: Iterator, T: 'a + Clone + Ord, F: FnMut(I::
             && (forall|k: int| 0 <= k < vals.len() ==> call_ensures(f, (it.remaining()[k],), &#[trigger] vals[k]))
             && r@ == vals.to_set(),
 { it.map(f).cloned().collect() }
+
+
+// ---- std items without a vstd specification ------------------------------------------------------
+pub assume_specification<T: PartialEq>[ <[T]>::contains ](s: &[T], x: &T) -> (r: bool)
+    ensures <T as PartialEqSpec>::obeys_eq_spec() ==> r == (exists|i: int| 0 <= i < s@.len() && PartialEqSpec::eq_spec(&#[trigger] s@[i], x));
+
+// BTreeSet::last = the greatest element
+pub assume_specification<T: Ord, A: core::alloc::Allocator + Clone>[ BTreeSet::<T, A>::last ](s: &BTreeSet<T, A>) -> (r: Option<&T>)
+    ensures key_obeys_cmp_spec::<T>() ==> (s@.len() == 0 ==> r is None)
+        && (s@.len() > 0 ==> r is Some && s@.contains(*r->Some_0)
+            && forall|x: T| #[trigger] s@.contains(x) ==> x == *r->Some_0 || OrdSpec::cmp_spec(&x, r->Some_0) is Less);
 
 } // verus!
 }
